@@ -17,7 +17,7 @@ ap.add_argument('--src',required=True); ap.add_argument('--id',required=True); a
 ap.add_argument('--wt',required=True); ap.add_argument('--pkgs',required=True); ap.add_argument('--demo-dir',required=True)
 ap.add_argument('--run',default=''); ap.add_argument('--also',default=''); ap.add_argument('--nodemo',action='store_true')
 ap.add_argument('--shim',action='store_true',help='worktree uses the dependency shim (go.mod modified); no -lang gcflags')
-ap.add_argument('--demo-timeout',default='10m')
+ap.add_argument('--demo-timeout',default='10m'); ap.add_argument('--testflags',default='',help='extra go test flags for the demonstration (e.g. -race)')
 a=ap.parse_args()
 env=dict(os.environ,GOFLAGS='-mod=mod',GOPROXY='off',GOSUMDB='off',GOTOOLCHAIN='local')
 GC="-gcflags=github.com/grailbio/bigslice/...=-lang=go1.17"
@@ -39,7 +39,8 @@ patch=os.path.join(a.src,"patch.diff")
 runflag=("-run '%s'"%a.run) if a.run else ""
 if not a.nodemo:
     shutil.copy(os.path.join(a.src,"demo_test.go"),demo_dst)
-    rc,_=step("demo on unchanged worktree",f"go test -vet=off -count=1 -timeout {a.demo_timeout} '{GC}' {runflag} ./{a.demo_dir}",wt)
+    DGQ=("'"+GC+"'") if not a.testflags else ''
+    rc,_=step("demo on unchanged worktree",f"go test -vet=off -count=1 -timeout {a.demo_timeout} {a.testflags} {DGQ} {runflag} ./{a.demo_dir}",wt)
     meta["confirmed"]["demo_passes_without_change"]=(rc==0)
     os.remove(demo_dst)
 rc,_=step("apply patch in worktree",f"git apply {patch}",wt)
@@ -50,7 +51,7 @@ rc,_=step("existing package tests with change",f"go test -vet=off -count=1 -time
 meta["confirmed"]["existing_tests_pass_with_change"]=(rc==0)
 if not a.nodemo:
     shutil.copy(os.path.join(a.src,"demo_test.go"),demo_dst)
-    rc,_=step("demo with change",f"go test -vet=off -count=1 -timeout {a.demo_timeout} '{GC}' {runflag} ./{a.demo_dir}",wt)
+    rc,_=step("demo with change",f"go test -vet=off -count=1 -timeout {a.demo_timeout} {a.testflags} {DGQ} {runflag} ./{a.demo_dir}",wt)
     meta["confirmed"]["demo_fails_with_change"]=(rc!=0)
     os.remove(demo_dst)
 sh("git checkout"+EXCL,wt)
